@@ -9,6 +9,8 @@ Definition answer (debug : bool) (v : view) (o : line) : list line :=
   else if Nat.ltb code 30 then algo_query debug v o
   else if Nat.ltb code 40 then short_query v o
   else if Nat.ltb code 42 then mst_query v o
+  else if Nat.eqb code 42 then algo_query debug v (22, snd o)     (* toposort with a DfsSpace::default(): same answer *)
+  else if Nat.eqb code 43 then algo_query debug v (25, snd o)     (* has_path_connecting with a DfsSpace::default() *)
   else if Nat.ltb code 50 then [(2, [])]
   else if Nat.ltb code 52 then match_query debug v o
   else if Nat.eqb code 52 then flow_query v o
